@@ -173,7 +173,7 @@ const agg2BodyRaw = `if useIter {
 	case !safe:
 		err = e.E.{{.Name}}(typ, dataA, dataB)
 		{{if not .VV -}}
-		if t.Shape().IsScalarEquiv() && !leftTensor {
+		if err == nil && t.Shape().IsScalarEquiv() && !leftTensor {
 			storage.Copy(typ, dataB, dataA)
 		}
 		{{end -}}
